@@ -43,10 +43,15 @@ func (sc *sliceContainers) Put(key uint64, c *Container) {
 	} else {
 		sc.containers[i] = c
 	}
+	// keep the last-lookup cache coherent with the stored container
+	if key == sc.lastKey {
+		sc.lastContainer = c
+	}
 
 }
 
 func (sc *sliceContainers) PutContainerValues(key uint64, typ byte, n int, mapped bool) {
+	sc.invalidateLast()
 	i := search64(sc.keys, key)
 	if i < 0 {
 		c := NewContainer()
@@ -199,6 +204,7 @@ func (sc *sliceContainers) Repair() {
 // (new-container, write). If write is true, the container is used to
 // replace the given container.
 func (sc *sliceContainers) Update(key uint64, fn func(*Container, bool) (*Container, bool)) {
+	sc.invalidateLast()
 	i, found := sc.seek(key)
 	var nc *Container
 	var write bool
@@ -222,12 +228,20 @@ func (sc *sliceContainers) Update(key uint64, fn func(*Container, bool) (*Contai
 // (new-container, write). If write is true, the container is used to
 // replace the given container.
 func (sc *sliceContainers) UpdateEvery(fn func(uint64, *Container, bool) (*Container, bool)) {
+	sc.invalidateLast()
 	for i, c := range sc.containers {
 		nc, write := fn(sc.keys[i], c, true)
 		if write {
 			sc.containers[i] = nc
 		}
 	}
+}
+
+// invalidateLast drops the last-lookup cache; used by operations that
+// replace containers without going through Put.
+func (sc *sliceContainers) invalidateLast() {
+	sc.lastKey = ^uint64(0)
+	sc.lastContainer = nil
 }
 
 type sliceIterator struct {
